@@ -801,7 +801,10 @@ func (sb *seqbag) rarefySeqBag(nb int, counts map[string]int) (sample *seqbag, e
 	sample = NewSeqBag(sb.alphabet)
 	sb.IterateAll(func(name string, sequence []uint8, comment string) bool {
 		if _, ok := selected[name]; ok {
-			sample.AddSequenceChar(name, sequence, comment)
+			// copy the residues: the sample must not share storage with the original
+			tmpseq := make([]uint8, len(sequence))
+			copy(tmpseq, sequence)
+			sample.AddSequenceChar(name, tmpseq, comment)
 		}
 		return false
 	})
